@@ -840,6 +840,12 @@ class Run:
                 return "skip"
         if not self.pair_ok(pa["obj"], b["obj"]) or not self.move_ok(b["obj"], pa["obj"]):
             return "skip"
+        if OS.state_of(b["obj"]) == "persistent" and not OS.loaded(b["obj"], "a")[0]:
+            # same rule as op_set_parent: the many-to-one side does not load its previous value, so the previous parent cannot be told;
+            # applications read the reference first - without autoflush and with pending work that read would be stale (R3): skip
+            if not self.cfg.get("autoflush", True) and (self.session.new or self.session.dirty or self.session.deleted):
+                return "skip"
+            b["obj"].a
         before_members = self.members()
         pa["obj"].bs.append(b["obj"])
         if self.in_session(pa["obj"]):
